@@ -81,7 +81,12 @@ def stmt(r, depth, budget, lines, max_depth, nsb=0, rich=False):
         if rich and r.random() < 0.5:
             lines.append(L(depth, ["switch", "("] + expr(r) + [")", "{"], kind="open"))
             for ci in range(r.randint(1, 3)):
-                lines.append(L(depth, ["case", str(ci), ":"] if r.random() < 0.8 else ["default", ":"], stmt=False, kind="case", n=nsb + 1))
+                if r.random() < 0.25:
+                    # a brace-less statement that starts on the label's own line: its body is one level below the case's statements
+                    lines.append(L(depth, ["case", str(ci), ":"] + r.choice([["if", "("] + expr(r) + [")"], ["while", "("] + expr(r) + [")"]]), stmt=False, kind="case", n=nsb + 1))
+                    lines.append(L(depth + 2, simple(r), n=nsb + 1))
+                else:
+                    lines.append(L(depth, ["case", str(ci), ":"] if r.random() < 0.8 else ["default", ":"], stmt=False, kind="case", n=nsb + 1))
                 lines.append(L(depth + 1, simple(r), n=nsb + 1))      # (a brace directly after a case label is the case's own block: indent_case_brace)
                 block(r, depth + 1, budget, lines, max_depth, nsb + 1, rich)
                 lines.append(L(depth + 1, ["break", ";"], n=nsb + 1))
